@@ -546,6 +546,8 @@ class StmtMixin:
                         heap.add(ast.unparse(n))
                 elif isinstance(n, ast.Call) and isinstance(n.func, ast.Attribute) and n.func.attr in self.MUTATORS:
                     root = n.func.value
+                    while isinstance(root, ast.Subscript):   # d[k].add(x) mutates (the container held in) d
+                        root = root.value
                     if isinstance(root, ast.Name):
                         names.add(root.id)
                     elif isinstance(root, ast.Attribute):
